@@ -981,6 +981,8 @@ def gen_pb_case(rng) -> dict[str, Any]:
         "obs": rng.sample(["obs", "o_2", "Aa"], rng.pick([0, 0, 1, 2])),
         "run": None if rng.chance(0.25) else {"algo": rng.pick(["SLSQP", "SLSQP", "PYDOE_FULLFACT", "L-BFGS-B"]), "max_iter": rng.randint(1, 7)},
         "diff": rng.pick(["user", "user", "finite_differences"]),
+        "tols": None if rng.chance(0.4) else [rat(rng.pick([Fraction(1, 8), Fraction(1, 1024), Fraction(0)])),
+                                              rat(rng.pick([Fraction(1, 4), Fraction(1, 4096), Fraction(0)]))],
     }
 
 
@@ -1008,6 +1010,9 @@ def build_problem(case):
         pb.add_observable(MDOFunction(lambda x: np.array([2.0 * x[0]]), o, expr="2*x[0]", input_names=names, dim=1))
     if not case["minimize"]:
         pb.minimize_objective = False
+    if case.get("tols"):
+        pb.tolerances.equality = float(Fraction(case["tols"][0]))
+        pb.tolerances.inequality = float(Fraction(case["tols"][1]))
     return pb
 
 
@@ -1058,8 +1063,9 @@ def pb_desc(pb) -> dict[str, Any]:
         "solution": None if sol is None else {k: _norm_sol(k, _plain(getattr(sol, k, None))) for k in SOLUTION_FIELDS},
         "database": canon_db(pb.database),
         "design_space": canon_ds(pb.design_space),
-        "extra": {"tolerances": [repr(pb.tolerances.equality), repr(pb.tolerances.inequality)],
-                  "differentiation_method": str(pb.differentiation_method)},
+        "extra": {"tolerances": [repr(float(pb.tolerances.equality)), repr(float(pb.tolerances.inequality))],
+                  "differentiation_method": str(pb.differentiation_method),
+                  "differentiation_step": repr(float(pb.differentiation_step))},
     }
 
 
@@ -1116,6 +1122,8 @@ def pb_oracle(case, obs) -> list[tuple[str, str]]:
             if a["solution"][k] != b["solution"][k]:
                 bad.append(("pb-solution-" + k, f"solution field {k}: {b['solution'][k]!r} instead of {a['solution'][k]!r}"))
                 break
+    if a["extra"]["tolerances"] != b["extra"]["tolerances"]:
+        bad.append(("pb-tolerances-differ", f"constraint tolerances (equality, inequality) {b['extra']['tolerances']} instead of {a['extra']['tolerances']}"))
     if a["database"] != b["database"]:
         bad.append(("pb-database-differs", "the database of the reloaded problem differs"))
     if a["design_space"] != b["design_space"]:
@@ -1136,7 +1144,7 @@ def check_pb_cases(res: Result, cases) -> None:
             res.nontrivial("pb:" + json.dumps(case, sort_keys=True))
         res.sample({"case": "pb", "spec": case})
         if "orig" in obs and "back" in obs and obs["orig"]["extra"] != obs["back"]["extra"]:
-            res.count("pb:info-extra-attributes-differ(tolerances/differentiation; not in the property statement)")
+            res.count("pb:info-differentiation-attributes-differ(not in the property statement)")
         for key, msg in pb_oracle(case, obs):
             res.violate("oracle", key, msg, {"case": shrink_pb(case, key)})
 
@@ -1149,8 +1157,8 @@ def shrink_pb(case, key):
             return False
 
     cur = case
-    for k, v in (("obs", []), ("two_vars", False), ("dim", 1), ("append", False), ("minimize", True), ("diff", "user")):
-        if cur[k] != v and fails({**cur, k: v}):
+    for k, v in (("obs", []), ("two_vars", False), ("dim", 1), ("append", False), ("minimize", True), ("diff", "user"), ("tols", None)):
+        if cur.get(k) != v and fails({**cur, k: v}):
             cur = {**cur, k: v}
     if len(cur["cstr"]) > 1:
         cur = {**cur, "cstr": common.shrink_list(cur["cstr"], lambda cs: fails({**cur, "cstr": cs}), budget=12)}
